@@ -70,11 +70,23 @@ def lck_capture(P, R, L, rule, entries, need):
         found = {}
         for kind, names in SOURCES.items():
             for cs in b.calls():
-                if b.is_cleanup(cs.bb):
+                if b.is_cleanup(cs.bb) or is_release_point(cs):
                     continue
-                if cs.name in names:
+                # the accessor itself, or a helper that is handed the guard (a held body) and reaches it
+                carries = {"sequence": "u64", "memtable": "MemTable", "version": "version::Version"}[kind]
+                if cs.name in names or (cs.t.get("local") and cs.callee in P.bodies and L.guard_param(P.bodies[cs.callee]) is not None
+                                        and carries in b.local_ty(cs.dest["l"])
+                                        and P.fn_reaches(cs.callee, names, sync_only=True)):
                     found.setdefault(kind, []).append(cs)
         imm_blocks = sorted(field_reads(b, "maybe_immutable_memtable"))
+        # ... or read by a helper that is handed the guard
+        for cs in b.calls():
+            if b.is_cleanup(cs.bb) or is_release_point(cs) or not (cs.t.get("local") and cs.callee in P.bodies):
+                continue
+            if L.guard_param(P.bodies[cs.callee]) is not None and "MemTable" in b.local_ty(cs.dest["l"]) and any(
+                    field_reads(P.bodies[q], "maybe_immutable_memtable") for q in P.reach_set(cs.callee, sync_only=True)
+                    if L.guard_param(P.bodies[q]) is not None):
+                imm_blocks = sorted(set(imm_blocks) | {cs.bb})
         # (a) sources read at held sites
         for kind in need.get(ep, []):
             if kind == "imm":
@@ -469,7 +481,7 @@ def grd3_sequence_filter(P, R, L, rule="GRD-3"):
                     "`%s` is reachable only over an edge on which entry.sequence <= snapshot sequence" % what,
                     "guard edges %s" % edges)
     # provenance of the sequence bound
-    SEQ_SRC = {PREV_SEQ, "snapshots::Snapshot::sequence_number"}
+    SEQ_SRC = {PREV_SEQ, "snapshots::Snapshot::sequence_number", "snapshots::InnerSnapshot::sequence_number"}
     g = P.body(GET)
     if g is not None:
         for (u, cb) in unlocked_closures(P, L, g):
@@ -484,9 +496,10 @@ def grd3_sequence_filter(P, R, L, rule="GRD-3"):
                             if st["k"] == "assign" and st["rv"]["k"] == "aggregate" and st["rv"].get("closure") == cb.path:
                                 fs = st["rv"]["fields"]
                                 if up.name in fs:
-                                    os_ = origins(g, st["rv"]["ops"][fs.index(up.name)])
+                                    from ..dataflow import deep_origins
+                                    os_ = deep_origins(P, g, st["rv"]["ops"][fs.index(up.name)])
                                     ok = bool(os_) and all(o.kind == "call" and o.name in SEQ_SRC for o in os_)
-                                    det = "captured `%s` originates from %s" % (up.name, sorted({o.name for o in os_}))
+                                    det = "captured `%s` originates from %s" % (up.name, sorted({str(o.name) for o in os_}))
                 R.check(rule, GET + "|lookup-sequence-provenance", ok, c.where(),
                         "the sequence of the lookup key is the snapshot's or the one read from the version set under the mutex", det)
     ni = P.body(NEW_ITER)
@@ -741,7 +754,8 @@ def upvar_parent_origins(P, cb, upvar_name):
             if st["k"] == "assign" and st["rv"]["k"] == "aggregate" and st["rv"].get("closure") == cb.path:
                 fs = st["rv"]["fields"]
                 if upvar_name in fs:
-                    out += origins(parent, st["rv"]["ops"][fs.index(upvar_name)])
+                    from ..dataflow import deep_origins
+                    out += deep_origins(P, parent, st["rv"]["ops"][fs.index(upvar_name)])
     return out
 
 
